@@ -106,6 +106,49 @@ def nontrivial(pid, script, iobs):
     return keys
 
 
+def variants(pid, script, idx):
+    """other configurations under which the same script must behave the same"""
+    import random as _r
+    rng = _r.Random(hash((pid, idx)) & 0xffffffff)
+    lines = script.splitlines()
+    out = []
+    if pid == "C07":
+        cfgs = [(st, sr, ms, co) for st in gen.CT_STYLES for sr in gen.CT_STALE
+                for ms in (1, 8, 1000000) for co in ("none", "type")]
+        for st, sr, ms, co in rng.sample(cfgs, 5):
+            label = "ct=%s stale=%s maxsize=%d compress=%s" % (st, sr, ms, co)
+            ls = [("init " + label) if ln.split()[:1] == ["init"] else ln for ln in lines]
+            out.append((label, "\n".join(ls) + "\n"))
+        # and one run with the caches cleared after every line
+        ls = []
+        for ln in lines:
+            ls.append(ln)
+        out.append(("clearct-after-every-line", None))
+        out[-1] = ("clearct-everywhere", "\n".join(_interleave_clearct(lines)) + "\n")
+    elif pid == "C12":
+        combos = [(a, b, c) for a in gen.STOR for b in gen.MMS for c in gen.DELS]
+        for a, b, c in rng.sample(combos, 6):
+            label = "storage=%s mm=%s del=%s" % (a, b, c)
+            ls = []
+            for ln in lines:
+                t = ln.split()
+                if t[:1] == ["forest"]:
+                    t = [x for x in t if not x.startswith(("storage=", "mm=", "del="))]
+                    ln = " ".join(t + ["storage=" + a, "mm=" + b, "del=" + c])
+                ls.append(ln)
+            out.append((label, "\n".join(ls) + "\n"))
+    return out
+
+
+def _interleave_clearct(lines):
+    # keeps line numbers: a clearct is appended on the same line is not
+    # possible, so instead every "show"/"card" line (pure observations) that
+    # follows is kept and a clearct replaces nothing: we only turn existing
+    # blank lines into clearct -- scripts for C07 are generated with a blank
+    # line after every command for this purpose
+    return [("clearct" if (ln.strip() == "" and i > 3) else ln) for i, ln in enumerate(lines)]
+
+
 def signature(pid, script, ds):
     """stable key of a violation for known_findings.json"""
     d = ds[0] if ds else {}
@@ -193,6 +236,37 @@ PROPS["C18"] = dict(
                "heap_manager -- they are validated response by response by the proven-sound monitor, not "
                "replicated; malloc_style relies on libc. 'Contents never altered' is the driver's sentinel check.")
 
+_AUDIT_RULE = ("mixed histories (constructions, apply operations across forests, edge copies/assignments, "
+               "releases, cache clears) over MT and EV+ forests with all policies; the extracted audit runs on "
+               "the dump of every active node after every few lines; distinct_nontrivial = distinct audit dumps "
+               "and distinct canonical diagrams")
+
+PROPS["C02"] = dict(
+    gens=[("hist", gen.gen_hist, 1.0)], quick=40, thorough=500, rule=_AUDIT_RULE,
+    level_text="Proved: mk/apply/build/of_fun only ever return diagrams that satisfy the reduction-rule clauses "
+               "(reducedb) for all inputs; the store-level clauses are the executable Gallina audit (15 clauses) "
+               "run on the implementation's own node dump at every quiescent point of generated histories.",
+    level_note=_MODELLED + "The audit is evaluated on dumps of the real node store; in-place reordering is "
+               "covered by C13's scripts. Soundness of the audit w.r.t. the tree-level predicate: see DESIGN.")
+PROPS["C06"] = dict(
+    gens=[("hist", gen.gen_hist, 1.0)], quick=40, thorough=500, rule=_AUDIT_RULE,
+    level_text="Reference-count clauses (incoming count = parent references + registered root edges; no "
+               "unreferenced live node beyond what the deletion policy allows; nothing live after everything is "
+               "released and caches cleared; held edges re-evaluate to the same table) evaluated by the "
+               "extracted Gallina audit on the implementation's dump after every few lines, incl. fan-in "
+               "histories crossing the 8/16-bit counter widths.",
+    level_note=_MODELLED + "Kernel theorems about the counter arrays are in progress (partial); use-after-free "
+               "in the C++ runtime is outside what a Gallina model can exhibit.")
+PROPS["C07"] = dict(
+    gens=[("hist", lambda r: gen.gen_hist(r, blank=True), 1.0)], quick=30, thorough=300, rule=_AUDIT_RULE +
+    "; every script is re-run under 5 other compute-table configurations (style x stale policy x max size x "
+    "compression) and once with the caches cleared after every command: all observations must coincide",
+    level_text="Results are compared across compute-table configurations and against the cache-free model "
+               "(which has no compute table at all: equality with it is transparency); per-node cache count = "
+               "number of entries mentioning the node (hook vs compute_table::countAllNodeEntries) in every audit.",
+    level_note=_MODELLED + "memo_transparent (any sound cache, any eviction) is proved for the generic "
+               "memoised recursion in Model/Memo.v when present; key adequacy per operation is by correspondence.")
+
 NOT_APPLICABLE = {}
-for _p in ["C02", "C06", "C07", "C08", "C09", "C11", "C12", "C13", "C14", "C15", "C16", "C17", "C20"]:
+for _p in ["C08", "C09", "C11", "C12", "C13", "C14", "C15", "C16", "C17", "C20"]:
     NOT_APPLICABLE[_p] = "check under construction in this session (model and correspondence stream not registered yet)"
